@@ -189,34 +189,21 @@ func encodeAndSplitGSM7Packed(content string, frameKey byte) ([][]byte, datacodi
 		return [][]byte{gsm7encoding.Pack(contentBytes)}, dataCoding, nil
 	}
 
-	perMsgLength := datacoding.SplitBy153
-	msgCount := ceil(len(contentBytes), perMsgLength)
-	res := make([][]byte, 0, msgCount)
-
-	begin, end := 0, perMsgLength
-	for idx := 0; idx < msgCount; idx++ {
-		if end > len(contentBytes) {
-			end = len(contentBytes)
-		}
-		if begin >= end {
-			continue
-		}
-
-		// Boundary case: When the last byte of a non-final part happens to be the indicator for an extended character,
-		// cutting at this point would split these two bytes.
-		// To avoid this scenario, the preceding part should pack one byte less, ensuring that 0x1b is placed within the next byte.
-		if idx != msgCount-1 && contentBytes[end-1] == gsm7encoding.EscapeSequence {
-			end--
-		}
-
+	// Boundary case: When the last byte of a non-final part happens to be the indicator for an extended character,
+	// cutting at this point would split these two bytes.
+	// To avoid this scenario, the preceding part should pack one byte less, ensuring that 0x1b is placed within the next byte.
+	ends := cutPoints(contentBytes, datacoding.SplitBy153, gsm7Boundary)
+	res := make([][]byte, 0, len(ends))
+	begin := 0
+	for idx, end := range ends {
 		// append UDHI
 		contentByte := make([]byte, 0, (end-begin)+datacoding.UDHILength)
 		contentByte = append(contentByte, longMsgHeader6ByteFrameKey)
 		contentByte = append(contentByte, longMsgHeader6ByteFrameTotal)
 		contentByte = append(contentByte, longMsgHeader6ByteFrameNum)
-		contentByte = append(contentByte, frameKey)       // frameKey
-		contentByte = append(contentByte, byte(msgCount)) // total
-		contentByte = append(contentByte, byte(idx+1))    // num
+		contentByte = append(contentByte, frameKey)        // frameKey
+		contentByte = append(contentByte, byte(len(ends))) // total
+		contentByte = append(contentByte, byte(idx+1))     // num
 
 		// pack
 		packed := gsm7encoding.Pack(contentBytes[begin:end])
@@ -225,18 +212,48 @@ func encodeAndSplitGSM7Packed(content string, frameKey byte) ([][]byte, datacodi
 		res = append(res, contentByte)
 
 		begin = end
-		end += perMsgLength
 	}
 
 	return res, dataCoding, nil
 }
 
+// boundaryFunc moves a tentative cut position (begin < end < len(data)) backwards when it would fall inside a character.
+type boundaryFunc func(data []byte, begin, end int) int
+
+// gsm7Boundary keeps the escape septet 0x1b together with the septet it escapes.
+func gsm7Boundary(data []byte, begin, end int) int {
+	if end-begin >= 2 && data[end-1] == gsm7encoding.EscapeSequence {
+		return end - 1
+	}
+	return end
+}
+
+// cutPoints returns the end offsets of the parts: every part takes at most perMsgLength units and the
+// parts together cover the data exactly once.
+func cutPoints(data []byte, perMsgLength int, boundary boundaryFunc) []int {
+	ends := make([]int, 0, ceil(len(data), perMsgLength))
+	for begin := 0; begin < len(data); {
+		end := begin + perMsgLength
+		if end >= len(data) {
+			end = len(data)
+		} else if boundary != nil {
+			if e := boundary(data, begin, end); e > begin && e <= end {
+				end = e
+			}
+		}
+		ends = append(ends, end)
+		begin = end
+	}
+	return ends
+}
+
 // splitWithUDHI splits the long message according to perMsgLength and adds a 6-byte header for concatenated SMS.
 func splitWithUDHI(data []byte, perMsgLength int, frameKey byte) [][]byte {
-	total := len(data)
-	msgCount := ceil(total, perMsgLength)
+	ends := cutPoints(data, perMsgLength, nil)
+	msgCount := len(ends)
 	contentBytes := make([][]byte, 0, msgCount)
-	for idx := 0; idx < msgCount; idx++ {
+	begin := 0
+	for idx, end := range ends {
 		contentByte := make([]byte, 0, perMsgLength+datacoding.UDHILength)
 
 		// append UDHI
@@ -247,18 +264,10 @@ func splitWithUDHI(data []byte, perMsgLength int, frameKey byte) [][]byte {
 		contentByte = append(contentByte, byte(msgCount)) // total
 		contentByte = append(contentByte, byte(idx+1))    // num
 
-		// split by perMsgLength
-		begin := idx * perMsgLength
-		end := (idx + 1) * perMsgLength
-		if end > total {
-			end = total
-		}
-		if begin == end {
-			continue
-		}
 		contentByte = append(contentByte, data[begin:end]...)
 
 		contentBytes = append(contentBytes, contentByte)
+		begin = end
 	}
 
 	return contentBytes
